@@ -366,7 +366,8 @@ func runC05(c *fw.Case) {
 	if shapeFamily {
 		g, ok = buildShiftShape(c)
 	} else {
-		g, ok = buildGolden(c, c.R, 4, 30)
+		// every 10th case: the OUTPUT module is a block-index module (no walker: the request ends on the stores / jobs alone)
+		g, ok = buildGoldenOpt(c, c.R, 4, 30, c.Index%10 == 8)
 	}
 	if !ok {
 		c.Count("golden_generation_gave_up", 1)
@@ -653,8 +654,12 @@ func (x *c05Ctx) one(chosen map[string]bool, chosenNames []string, workers int, 
 			}
 		}
 	}
-	// walker output against the reference
-	if pl.Plan.ReadExecOut != nil {
+	indexOut := s.pkg.Kind[g.out] == "index"
+	if indexOut {
+		c.Count("schedules_with_index_output_module", 1)
+	}
+	// walker output against the reference (an index output module is not streamed while back-processing)
+	if pl.Plan.ReadExecOut != nil && !indexOut {
 		fake := &sim.Result{Spec: g.req, Responses: append([]*pbsubstreamsrpc.Response{{Message: &pbsubstreamsrpc.Response_Session{Session: &pbsubstreamsrpc.SessionInit{ResolvedStartBlock: pl.Details.ResolvedStartBlockNum, LinearHandoffBlock: pl.Details.LinearHandoffBlockNum}}}}, env.resps...)}
 		fake.Spec.Stop = pl.Plan.ReadExecOut.ExclusiveEndBlock
 		fs, facts := sim.CheckStream(fake, ref, false)
@@ -677,10 +682,13 @@ func (x *c05Ctx) one(chosen map[string]bool, chosenNames []string, workers int, 
 		}
 		for k := seg.FirstIndex(); k <= seg.LastIndex(); k++ {
 			r := seg.Range(k)
-			if r == nil || s.pkg.Kind[g.out] == "index" {
+			if r == nil {
 				continue
 			}
 			rel := fmt.Sprintf("%s/outputs/%010d-%010d.output.zst", h, r.StartBlock, r.ExclusiveEndBlock)
+			if indexOut {
+				rel = fmt.Sprintf("%s/index/%010d-%010d.index.zst", h, r.StartBlock, r.ExclusiveEndBlock)
+			}
 			if !have[rel] {
 				c.Violation("C05/output-file-missing-after-quit", "scheduler quit cleanly but requested output file "+rel+" was not written", wit())
 			}
